@@ -1727,6 +1727,13 @@ class PyCdlib:
                                                 current_extent - part_start)
 
                 if self.isohybrid_mbr is not None:
+                    if enc.entry is self.eltorito_boot_catalog.initial_entry:
+                        # The hybrid boot sector loads the boot file of the
+                        # initial entry (the one add_isohybrid() checked),
+                        # whatever platform the catalog is for; further
+                        # entries do not concern it.
+                        self.isohybrid_mbr.update_rba(entry_extent)
+
                     if enc.platform_id == 0xef:
                         # The first EFI image goes into the EFI partition and
                         # the second one into the Mac partition, if the
@@ -1740,11 +1747,6 @@ class PyCdlib:
                             self.isohybrid_mbr.update_mac(entry_extent,
                                                           enc.entry.sector_count)
                         num_seen_efi += 1
-                    elif enc.platform_id == 0 and enc.entry is self.eltorito_boot_catalog.initial_entry:
-                        # The hybrid boot sector loads the boot file of the
-                        # initial entry (the one add_isohybrid() checked);
-                        # further entries for this platform do not concern it.
-                        self.isohybrid_mbr.update_rba(entry_extent)
 
                 if already_placed:
                     continue
